@@ -537,6 +537,13 @@ func (m *mWorld) startOp(h *mHandle) {
 		h.exit = "bad-argument"
 		m.c.Fault("bad-argument")
 	}
+	switch h.kind {
+	case "select", "selectdone", "ixselect", "ixeq", "pk":
+		if h.exit != "bad-argument" && s.Chance(1, 8, "nested-call") {
+			rq.NestAt = 1 + s.Draw(3, "nestat")
+			m.c.Fault("nested-call-in-callback")
+		}
+	}
 	if h.exit == "early-stop" {
 		m.c.Fault("early-stop")
 	}
